@@ -2,6 +2,7 @@ package props
 
 import (
 	"encoding/json"
+	"fmt"
 	"os"
 	"path/filepath"
 	"sort"
@@ -90,6 +91,10 @@ func genC12(t *rapid.T) C12Case {
 	if rapid.Bool().Draw(t, "moduleMembers") {
 		ws.Files = append(ws.Files, WSFile{Path: "modm.lua", Text: "local M = {}\nM.count = 0\nfunction M:bump(n)\n  self.count = self.count + n\n  return self\nend\nfunction M.reset()\n  M.count = 0\nend\nreturn M\n"},
 			WSFile{Path: "usem.lua", Text: "local A = require(\"modm\")\nA:bump(2)\nA.reset()\nlocal function usef()\n  A:bump(3)\n  return A.count\nend\nusef()\n"})
+	}
+	// a table built by nested constructors and read through `a.b.c` chains
+	if rapid.Bool().Draw(t, "nestedTable") {
+		ws.Files = append(ws.Files, WSFile{Path: "tbls.lua", Text: genNestedTable(t)})
 	}
 	if gate("c12-spaced-qualifier") {
 		// known finding C12-F2: `_G . name` written with blanks; the qualifier is rendered glued instead
@@ -194,6 +199,25 @@ func checkC12(c C12Case, env *Env) *Violation {
 			// `_G.name`: a position on the global `name`
 			occs = append(occs, &reflua.Occ{Name: gf, Kind: reflua.ORead})
 			env.Stats.Class("pos-G-qualified")
+		}
+		if f.Path == "tbls.lua" {
+			// keys of the nested constructors and the member names of the chains reading them
+			toks := inf.res.Tokens
+			for ti := 1; ti+1 < len(toks); ti++ {
+				if toks[ti].Kind != reflua.TName {
+					continue
+				}
+				isKey := (toks[ti-1].Text == "{" || toks[ti-1].Text == ",") && toks[ti+1].Text == "="
+				if toks[ti-1].Text == "." || isKey {
+					nm := &reflua.Name{Text: toks[ti].Text, Span: reflua.Span{Off: toks[ti].Off, End: toks[ti].End}}
+					occs = append(occs, &reflua.Occ{Name: nm, Kind: reflua.ORead})
+					if isKey {
+						env.Stats.Class("pos-constructor-key")
+					} else {
+						env.Stats.Class("pos-member-chain")
+					}
+				}
+			}
 		}
 		if f.Path == "modm.lua" || f.Path == "usem.lua" {
 			// member names after `.` / `:` in the module scenario
@@ -471,3 +495,49 @@ func declIsLocal(ws *Workspace, _ *reflua.Binding, d Loc, bindOf func(int) *refl
 }
 
 func TestC12(t *testing.T) { runProp(t, "C12", genC12, checkC12) }
+
+// genNestedTable writes a file that builds one table (local or global) with nested constructors
+// (distinct keys per level, depth up to 3) and reads some of its paths through member chains.
+func genNestedTable(t *rapid.T) string {
+	name := "tcfg"
+	var b strings.Builder
+	if rapid.Bool().Draw(t, "ntLocal") {
+		b.WriteString("local ")
+	}
+	var paths [][]string
+	nk := 0
+	var cons func(depth int, path []string) string
+	cons = func(depth int, path []string) string {
+		n := rapid.IntRange(1, 3).Draw(t, "ntKeys")
+		parts := []string{}
+		for i := 0; i < n; i++ {
+			nk++
+			k := fmt.Sprintf("k%d", nk)
+			p := append(append([]string{}, path...), k)
+			paths = append(paths, p)
+			nest := depth < 3 && rapid.IntRange(0, 2).Draw(t, "ntNest") == 0
+			if nest && depth >= 2 && gate("c12-deep-constructor-key") {
+				// known finding C12-F3: a key of a constructor nested more than two tables deep
+				nest = false
+				excluded()
+			}
+			if nest {
+				parts = append(parts, k+" = "+cons(depth+1, p))
+			} else {
+				parts = append(parts, fmt.Sprintf("%s = %d", k, nk))
+			}
+		}
+		sep := ", "
+		if rapid.Bool().Draw(t, "ntMultiline") {
+			sep = ",\n  "
+		}
+		return "{ " + strings.Join(parts, sep) + " }"
+	}
+	b.WriteString(name + " = " + cons(1, nil) + "\n")
+	nu := rapid.IntRange(1, 4).Draw(t, "ntUses")
+	for i := 0; i < nu; i++ {
+		p := paths[rapid.IntRange(0, len(paths)-1).Draw(t, "ntPath")]
+		b.WriteString("print(" + name + "." + strings.Join(p, ".") + ")\n")
+	}
+	return b.String()
+}
